@@ -154,6 +154,21 @@ def run(ctx):
             ctx.check("C15.R5", "record arm passes the default to _process_record", ok, pp.where(n), "Parser._parse record arm", "a record-typed field loses its default")
             continue
         has_default = any(isinstance(c, ast.keyword) and c.arg == "default" and norm(c.value) == dparam for s in n.body for c in ast.walk(s))
+        if not has_default:
+            # the arm may hand over to a per-kind method of the parser: the default travels as an argument and the
+            # method passes it on as default=<its parameter>
+            for s in n.body:
+                for c in ast.walk(s):
+                    if isinstance(c, ast.Call) and isinstance(c.func, ast.Attribute) and isinstance(c.func.value, ast.Name) and c.func.value.id == "self" and pp.cls is not None and c.func.attr in getattr(pp.cls, "methods", {}):
+                        hm = pp.cls.methods[c.func.attr]
+                        hp = hm.pos_params[1:]
+                        for i_, a_ in enumerate(c.args):
+                            if norm(a_) == dparam and i_ < len(hp):
+                                if any(isinstance(k, ast.keyword) and k.arg == "default" and norm(k.value) == hp[i_] for k in ast.walk(hm.node)):
+                                    has_default = True
+                        for k_ in c.keywords:
+                            if norm(k_.value) == dparam and k_.arg and any(isinstance(k, ast.keyword) and k.arg == "default" and norm(k.value) == k_.arg for k in ast.walk(hm.node)):
+                                has_default = True
         ctx.check("C15.R5", f"{kind} arm passes default=default", has_default, pp.where(n), f"Parser._parse {kind} arm: {[norm(r)[:70] for r in rets]}", f"a field of type {kind} absent from the JSON text would raise 'no value and no default' although the schema declares one")
     # the function that builds a record's production, by role: the one that constructs RecordStart
     prs = [m_ for m_ in pp.mod.all_funcs if any(isinstance(c, ast.Call) and norm(c.func) == "RecordStart" for c in ast.walk(m_.node))]
